@@ -287,3 +287,35 @@ def result_arms(fn, fa, pred):
                     arms[nm] = other
         out.append((bi, arms))
     return out
+
+
+def bool_branches(fn, fa, pred):
+    """Bool switches whose tested expression satisfies pred(expr): [(switch bb, true target, false target)]."""
+    from .cfg import cfg_of
+    cfg = cfg_of(fn)
+    out = []
+    for bi, blk in enumerate(fn.blocks):
+        t = blk["term"]
+        if blk["cleanup"] or t["k"] != "switch" or t["ty"] != "bool":
+            continue
+        v = fa.val_operand(t["d"], (bi, len(blk["stmts"])))
+        neg = False
+        while v[0] == "not":
+            v = v[1]
+            neg = not neg
+        if not pred(v):
+            continue
+        tt = ff = None
+        for (val, tgt) in t["targets"]:
+            if val == 0:
+                ff = tgt
+            else:
+                tt = tgt
+        if tt is None:
+            tt = t["otherwise"]
+        if ff is None:
+            ff = t["otherwise"]
+        if neg:
+            tt, ff = ff, tt
+        out.append((bi, tt, ff))
+    return out
